@@ -16,7 +16,7 @@ func init() {
 		"non-trivial = not the all-valid document; distinct = (source hash, document)"
 }
 
-var c11Devs = []string{"LEN_BYTES", "REQUIRED_UNDECLARED_IGNORED", "ANYOF_MERGED_FIELD_TYPES", "ALLOF_FIRST_WINS", "COMPOSITE_DEF_REF_IS_ANY", "REF_UNTYPED_DEF_IS_ANY", "ALLOF_MERGE_MUTATES_SHARED_DEFINITION", "NULL_FIRST_OBJECT_BRANCHES_ARE_ANY"}
+var c11Devs = []string{"LEN_BYTES", "REQUIRED_UNDECLARED_IGNORED", "ANYOF_MERGED_FIELD_TYPES", "ALLOF_FIRST_WINS", "COMPOSITE_DEF_REF_IS_ANY", "REF_UNTYPED_DEF_IS_ANY", "ALLOF_MERGE_MUTATES_SHARED_DEFINITION", "NULL_FIRST_OBJECT_BRANCHES_ARE_ANY", "COMPOSITE_SIBLING_KEYWORDS_DROPPED"}
 
 type c11Branch struct {
 	props []string
@@ -206,6 +206,30 @@ func c11(ctx *Ctx) {
 	shared, sharedDocs := c11Shared(ctx.Level)
 	runBehaviour(ctx, behaviour{Name: "shared", Cases: shared, Devs: c11Devs, Values: true,
 		DocGen: func(sc *SCase, m *refmodel.Model) []refmodel.Doc { return sharedDocs[sc.ID] }})
+	// an object schema with its own properties / required list next to the composite: everything must hold together
+	var own []SCase
+	for _, comp := range []string{"allOf", "anyOf"} {
+		for _, pos := range []string{"prop", "def", "root"} {
+			b0 := J{"type": "object", "properties": J{"a": J{"type": "string"}}, "required": A{"a"}}
+			b1 := J{"type": "object", "properties": J{"b": J{"type": "integer"}}}
+			if comp == "anyOf" {
+				b1["required"] = A{"b"}
+			}
+			o := J{"type": "object", "properties": J{"own": J{"type": "string", "minLength": 2}, "opt": J{"type": "boolean"}}, "required": A{"own"}, comp: A{b0, b1}}
+			var root J
+			switch pos {
+			case "prop":
+				root = J{"type": "object", "properties": J{"c": o, "k": J{"type": "string"}}, "required": A{"c"}}
+			case "def":
+				root = J{"type": "object", "properties": J{"c": J{"$ref": "#/$defs/O"}, "c2": J{"$ref": "#/$defs/O"}}, "required": A{"c"}, "$defs": J{"O": o}}
+			case "root":
+				root = o
+			}
+			own = append(own, SCase{ID: fmt.Sprintf("C11/own-keywords/%s/%s", comp, pos), Schema: root, Cfg: baseCfg(), Axes: map[string]string{"pos": "own-keywords", "leaf": comp + "/" + pos, "composite": comp}})
+		}
+	}
+	runBehaviour(ctx, behaviour{Name: "own-keywords", Cases: own, Devs: c11Devs,
+		DocFilter: func(sc *SCase, d *refmodel.Doc, tv refmodel.Verdict) bool { return !strings.Contains(d.Class, "extra-key") }})
 	// branches that are nullable objects, in both spellings of the type list, inline and by reference
 	var nb []SCase
 	for _, comp := range []string{"allOf", "anyOf"} {
